@@ -6,6 +6,18 @@ hook_commits = subprocess.run("git -C /repo log --format=%h --grep='^verif:'", s
 
 MC = "model_checking"; FE = "fault_enumeration"; EX = "exploration"
 CHECKS = {
+ "C01": dict(engine="crash", cat=FE, ref="7/C01",
+   technique="exhaustive crash-point enumeration: every prefix of the recorded file-mutation stream of every history of a BFS over the real engine, reopened and compared with the reference model",
+   text="For every history of the breadth-first search (autocommit and two-session committed work, DDL, multi-page rows, flush and VACUUM checkpoints; seeds: fresh database, checkpointed-and-reopened database, log block zero about 90% full) the I/O tap records every file mutation; every prefix of that stream is rebuilt as an on-disk image, opened with Database::open, and every table compared with the model's committed state after the acknowledged commits (or that plus the one commit in flight).",
+   note="Crash model is the property's own (a crash leaves a prefix of the mutation stream; torn/reordered writes not modelled). Trusted: I/O tap (hook in DBFile), reference model. Crash points inside earlier operations of a history are covered by the parent history. Two listed findings (log beyond block zero, torn multi-page write-back) are applied only to failing crash points inside their trigger windows."),
+ "C02": dict(engine="crash", cat=FE, ref="7/C02",
+   technique="exhaustive crash-point enumeration over histories with committed, rolled-back, dropped, failed and still-open transactions, exact comparison with the reference model",
+   text="As C01, over histories that mix committed, explicitly rolled-back, dropped, failed and still-open transactions (inserts, updates, deletes, DDL) with cache sizes 10000 and 16 pages; at every crash prefix the recovered contents must equal EXACTLY the model's committed state for the acknowledged commits (or that plus the whole in-flight commit).",
+   note="As C01. Histories whose close rolls back an UPDATE (listed finding: UPDATE is not undone) are not crash-enumerated; their extensions are."),
+ "C08": dict(engine="crash", cat=FE, ref="7/C08",
+   technique="exhaustive crash-point enumeration nested to depth 2 (every prefix of the recovery's own mutation stream) plus repeated open/close cycles",
+   text="For every history and every crash prefix Database::open must succeed and all tables be readable; two further open/close cycles must not change the contents; the recovery's own file mutations are recorded and for every prefix of them a second image is built and opened, which must succeed and yield the contents of the uninterrupted recovery.",
+   note="As C01. Listed finding: recovery resets the log before what it rebuilt is on disk, so nested crash points after that truncation lose the recovered data; applied only to failing nested points after the truncation."),
  "C03": dict(engine="seq", cat=MC, ref="7/C03",
    technique="explicit-state BFS over operation sequences of the real engine (public API), state-deduplicated on a reference MVCC model, step-wise conformance to a snapshot-isolation model",
    text="Every sequence (to the completed depth) of begin/insert/multi-row insert/delete/update/create table/failing statement/commit/rollback/session drop/autocommit/batch operations of two sessions is executed on the real engine and each result, plus a fresh-transaction read of all tables at the end of every history, is compared with a snapshot-isolation reference model; exhaustive within the alphabet and depth.",
@@ -59,6 +71,8 @@ m = {
    "source_commits": hook_commits,
    "add_only": True},
  "engines": [
+   {"name": "crash", "path": "harness/src/engines/crash.rs", "serves_properties": [k for k,v in CHECKS.items() if v["engine"]=="crash"],
+    "kind_free_text": "fault enumeration: the seq engine's histories run under an I/O tap; every prefix of the file-mutation stream (and, for C08, of the recovery's own stream) is rebuilt and reopened"},
    {"name": "seq", "path": "harness/src/engines/seq.rs", "serves_properties": [k for k,v in CHECKS.items() if v["engine"]=="seq"],
     "kind_free_text": "explicit-state BFS over statement-level operation sequences of the real engine through its public API, in 16 worker subprocesses, against a reference MVCC/SI model"},
  ],
